@@ -203,8 +203,9 @@ func (s *store) add(username, password string, isAdmin bool) (result addResult) 
 }
 
 func (s *store) remove(username string) (result removeResult) {
-	s.dir.RemoveUser(username)
-	s.hooks.Notify <- true
+	if result.err = s.dir.RemoveUser(username); result.err == nil {
+		s.hooks.Notify <- true
+	}
 	return
 }
 
